@@ -167,13 +167,16 @@ func c02(ctx *run.Ctx) {
 				lengths = append(lengths, n)
 			}
 			lengths = append(lengths, 3*w+7, 97)
+			if ci == 0 {
+				lengths = append(lengths, 4500) // ~18 years of daily bars: maintenance paths that run every few thousand values
+			}
 			for _, cclass := range []string{gen.Walk, gen.Degen, gen.Ties, gen.Flat} {
 				cclass := cclass
 				if cclass != gen.Walk && ci > ctx.Pick(3, 12) {
 					continue
 				}
 				ctx.Case(fmt.Sprintf("%s/cfg%d/counts/%s", ind.Name, ci, cclass), func(cc *run.Case) {
-					bars := gen.Bars(cc.R, cclass, 3*w+100)
+					bars := gen.Bars(cc.R, cclass, max(3*w+100, lengths[len(lengths)-1]))
 					full := indInputs(ind, bars, nil)
 					for _, n := range lengths {
 						cc.Desc(map[string]any{"indicator": ind.Name, "cfg": cfg, "class": cclass, "n": n, "w": w})
